@@ -21,20 +21,33 @@ def worker(job):
     fam = None
     if seed % 3 == 1:
         fam = ["layout", "layout", "reduce", "index", "creation", "nullable", "where", "sort", "shortcut"]
-    prog = progs.generate(rng, seed=seed, families=fam,
+    preset = None
+    if seed % 5 == 2:
+        # broadcasting through *unknown* extents: operands whose declared dims look alike (symbolic/None) but one
+        # of them has run-time extent 1
+        r = rng.choice([1, 2])
+        full = ["A", "B"][:r]
+        unit = [("U" if rng.random() < 0.7 else d) for d in full]
+        if "U" not in unit:
+            unit[rng.randrange(r)] = "U"
+        d0 = rng.choice(progs.DT_POOL)
+        preset = [{"dtype": d0, "dims": full}, {"dtype": rng.choice(["bool", "bool", d0]), "dims": unit},
+                  {"dtype": rng.choice(["bool", "nbool", d0]), "dims": rng.choice([full, unit])}]
+        fam = ["nullable", "nullable", "where", "binary", "logical", "cmp", "layout", "creation"]
+    prog = progs.generate(rng, seed=seed, families=fam, preset_inputs=preset,
                           sizes={"A": rng.choice([1, 2, 3]), "B": rng.choice([1, 2, 3])})
     if prog is None:
         return None
     rec = {"prog": prog, "desc": progs.describe(prog), "cases": [], "fail": []}
     n = len(prog["inputs"])
-    names = sorted({d for i in prog["inputs"] for d in i["dims"] if isinstance(d, str)})
+    names = sorted({d for i in prog["inputs"] for d in i["dims"] if isinstance(d, str) and d != "U"})
     if not names:
         return None
     lazy_sets = [set(range(n))]
     if n > 1:
         lazy_sets.append(set(rng.sample(range(n), rng.randrange(1, n))))
     for S in lazy_sets:
-        if not any(isinstance(d, str) for k in S for d in prog["inputs"][k]["dims"]):
+        if not any(isinstance(d, str) and d != "U" for k in S for d in prog["inputs"][k]["dims"]):
             continue
         style = rng.choice(["symbolic", "unknown"])
         try:
@@ -55,6 +68,7 @@ def worker(job):
             sizes = {**prog["gen_sizes"], **sizes}
             if progs.crash_prone(prog) and 0 in sizes.values():
                 continue
+            sizes["U"] = 1
             case = {"lazy": sorted(S), "style": style, "sizes": {k: sizes[k] for k in names}}
             try:
                 vals, _, eres = progs.run_eager(prog, sizes, seed)
@@ -98,6 +112,10 @@ def run(ctx: common.Ctx):
         "size; distinct = distinct (program, lazy set, size assignment); non-trivial = sizes differ from the trace-time sizes")
     n = 220 if ctx.tier == "quick" else 2500
     recs = tables.pmap(worker, [(ctx.seed * 100003 + k, ctx.tier) for k in range(n)], chunk=4)
+    report_sized(ctx, recs)
+
+
+def report_sized(ctx, recs):
     nprog = 0
     for rec in recs:
         if rec is None:
@@ -111,7 +129,7 @@ def run(ctx: common.Ctx):
             ctx.count("op:" + st["op"])
         for c in rec["cases"]:
             ctx.case((rec["desc"], tuple(c["lazy"]), c["style"], tuple(sorted(c["sizes"].items()))),
-                     c["sizes"] != {k: rec["prog"]["gen_sizes"][k] for k in c["sizes"]},
+                     c["sizes"] != {k: rec["prog"]["gen_sizes"][k] for k in c["sizes"]} or not c["sizes"],
                      {"program": rec["desc"], **c} if len(ctx.samples) < 6 else None)
             for k, v in c["sizes"].items():
                 ctx.count(f"extent:{v}")
